@@ -44,7 +44,7 @@ CLAIMED = {
     "C01": dict(
         engine="fileio",
         technique="Lean 4 proof: structure theorem for writer sessions (final header ++ records ++ EVLRs) composed with the header/VLR round-trip theorems to give readFile (writeFile img) = img for all record contents; byte-exact correspondence with LasData.write / laspy.read",
-        text="Theorems for every header in the legal domain, every list of records of the header's record length (arbitrary bytes: every bit pattern of every field, NaN payloads, extremes, 0 and 1 points) and every EVLR list: the one-shot session succeeds, its output is exactly final header ++ records ++ EVLRs, and reading it returns byte-identical records, the same count, version, format byte, record length, scale/offset bit patterns, strings, GUID and VLRs; the writer never alters the caller's header fields. The model is compared byte for byte with the real write (BytesIO, path, buffered and unbuffered files) and its readFile with laspy.read on all 24 version/format pairs with typed extra dimensions; write-after-read idempotence and purity are checked on the implementation (snapshot) — the idempotence theorem is not yet proved (partial).",
+        text="Theorems for every header in the legal domain, every list of records of the header's record length (arbitrary bytes: every bit pattern of every field, NaN payloads, extremes, 0 and 1 points) and every EVLR list: the one-shot session succeeds, its output is exactly final header ++ records ++ EVLRs, and reading it returns byte-identical records, the same count, version, format byte, record length, scale/offset bit patterns, strings, GUID and VLRs; the writer never alters the caller's header fields. The model is compared byte for byte with the real write (BytesIO, path, buffered and unbuffered files) and its readFile with laspy.read on all 24 version/format pairs with typed extra dimensions; C01_idempotent: writing the decoded header with the same records and normal-form EVLRs reproduces the file byte for byte (header-encoding congruence); purity of the real writer is checked on the implementation by deep snapshots.",
         note="Trusted: Lean kernel; numpy exposes the structured array's memory as the record image (memoryview/frombuffer); hardware-double evaluation of the extrema in the driver; creation date set explicitly. Scalings are finite (a NaN scale makes the writer take its rescale path because NaN != NaN; outside the quantifier, recorded in DESIGN.md).",
         design="6 (C01)"),
     "C03": dict(
